@@ -294,13 +294,12 @@ def one_dataset(obs, rng, conv, spec, ctx):
             obs.evaluation()
             try:
                 with quiet_warnings():
-                    got = ems.make_poly_collection(da.isel(sel))
+                    ems.make_poly_collection(da.isel(sel))
             except Exception as exc:  # noqa: BLE001
                 obs.cls('not-asserted:non-face-variable:refused:' + type(exc).__name__)
             else:
                 same = model.kinds[var.kind].size == size
                 obs.cls('not-asserted:non-face-variable:returned' + (':same-size-as-faces' if same else ''))
-                del got
             continue
         # --- face variable ---
         cellpos = [list(var.dims).index(d) for d in face.dims]
@@ -504,7 +503,7 @@ def one_dataset(obs, rng, conv, spec, ctx):
 def animate(obs, rng, model, ds, ems, plotted, idx, holes, conv):
     from matplotlib.figure import Figure
     import emsarray.plot
-    tname, tdim, nt = model.time['name'], model.time['dim'], model.time['size']
+    tname, nt = model.time['name'], model.time['size']
     var = model.variables['anim']
     with_vector = chance(rng, 0.5)
     kw = {'scalar': ds['anim']}
